@@ -250,6 +250,57 @@ def g2_reference_binding(ctx: Ctx):
               'rebound = another plain assignment to the same storage class (an element store is not a rebind)', 'changed')
 
 
+UNBOX = 'fpy2/backend/cpp/unbox.py'
+
+
+def d1_region_sizes(ctx: Ctx):
+    """A region becomes a `std::array<T, k>` only if every value ever bound to it has length k.  `_region_sizes` meets the
+    contributions of all definitions and allocating expressions of a region; in that meet "unknown" absorbs: once a
+    contribution had no proven length, or two differed, no later contribution brings a length back.  The inner
+    `contribute` is evaluated, from its source, on every sequence of up to four contributions drawn from
+    {unknown, 3, 4} and compared with that meet; `seed` must contribute "unknown" for a definition without a bound."""
+    from itertools import product
+
+    from ..minipy import Interp
+    outer = ctx.fn(UNBOX, '_region_sizes')
+    inner = {f.name: f for f in outer.body if isinstance(f, ast.FunctionDef)}
+    if 'contribute' not in inner or 'seed' not in inner:
+        raise ShapeError('_region_sizes: contribute / seed not found')
+    fn = inner['contribute']
+    n = 0
+    bad = None
+    for length in (1, 2, 3, 4):
+        for seq in product((None, 3, 4), repeat=length):
+            sizes: dict = {}
+            it = Interp({}, globals_={'sizes': sizes})
+            for k in seq:
+                it.call_function(fn, ['r', k])
+            want = seq[0] if all(k == seq[0] for k in seq) else None
+            n += 1
+            if sizes.get('r', 'absent') != want and bad is None:
+                bad = f'contributions {list(seq)} leave the region at length {sizes.get("r", "absent")}, the meet is {want}'
+    ctx.check(bad is None, UNBOX, fn, '_region_sizes.contribute', f'the proven length of a region is the meet of its contributions, unknown absorbing ({n} sequences)',
+              (bad or '') + ': a list of run-time length is stored in a std::array of the length a later literal happened to have')
+    seed = inner['seed']
+    arms = [c for m in ast.walk(seed) if isinstance(m, ast.Match) for c in m.cases]
+    none_arm = [c for c in arms if isinstance(c.pattern, ast.MatchSingleton) and c.pattern.value is None]
+    ok = len(none_arm) == 1 and [norm(s) for s in none_arm[0].body] == ['contribute(region, None)']
+    ctx.check(ok, UNBOX, none_arm[0].pattern if none_arm else seed, '_region_sizes.seed', 'a definition with no proven bound contributes "unknown"', f'got {[norm(s) for c in none_arm for s in c.body]}')
+    ls = [c for c in arms if isinstance(c.pattern, ast.MatchClass) and dotted(c.pattern.cls) == 'ListSize']
+    ok = len(ls) == 1 and 'contribute(region, concrete_size(bound.size))' in [norm(s) for s in ls[0].body]
+    ctx.check(ok, UNBOX, ls[0].pattern if ls else seed, '_region_sizes.seed', 'a list bound contributes its concrete length (a symbolic one is unknown)', 'changed')
+    loops = [norm(s, 400) for s in outer.body if isinstance(s, ast.For)]
+    ok = any(s.startswith('for d in alias.all_defs(): seed(array_size.by_def.get(d), alias.region_of(d))') for s in loops)
+    ctx.check(ok, UNBOX, outer, '_region_sizes', 'every definition contributes, with `None` where the size analysis has no entry', f'loops: {loops}')
+    cs = ctx.fn(UNBOX, 'concrete_size') if ctx.repo.has_func(UNBOX, 'concrete_size') else None
+    if cs is None:
+        res = ctx.repo.resolve(UNBOX, 'concrete_size')
+        cs = ctx.repo.defnode(res) if res else None
+    if isinstance(cs, ast.FunctionDef):
+        t = norm(cs, 2000)
+        ctx.check('isinstance(' in t and 'int' in t and 'None' in t, UNBOX, cs, 'concrete_size', 'only an integer length is concrete', 'changed')
+
+
 EXPLANATION = (
     'Thin structural claim over the C++ backend (ast only). Decided: (T1) every <cmath> table row names std::<op> for the '
     'node class of the same operation in the table of its arity; infix/prefix arithmetic; Abs split by domain; float '
@@ -270,11 +321,19 @@ RULES = [
     Rule('C11.X1', 'every node kind is emitted or refused; no signature => CppEmitError; widening only under REAL', x1_emit_or_refuse, 40, 'X'),
     Rule('C11.G1', 'explicit roundings are emitted as casts only when the context is exactly a machine format', g1_cast_is_round, 5, 'G'),
     Rule('C11.G2', 'a list name is bound as a C++ reference to another variable only when neither is ever rebound', g2_reference_binding, 4, 'G'),
+    Rule('C11.D1', 'static array lengths: the length of a region is the meet of every contribution, unknown absorbing', d1_region_sizes, 4, 'D'),
 ]
 
 from ..selftest import Mutant  # noqa: E402
 
 MUTANTS = [
+    Mutant('unknown-length-repinned', UNBOX, "        if region in sizes and sizes[region] != k:\n            sizes[region] = None\n        else:\n            sizes[region] = k",
+           "        prev = sizes.get(region, k)\n        sizes[region] = k if prev is None or prev == k else None", 'C11.D1',
+           'seeded change C11c: `ys = [x + 1 for x in xs]` in one arm, a 3-literal in the other -> std::array<double, 3>'),
+    Mutant('differing-lengths-keep-the-last', UNBOX, "        if region in sizes and sizes[region] != k:\n            sizes[region] = None\n        else:\n            sizes[region] = k", "        sizes[region] = k", 'C11.D1'),
+    Mutant('unbounded-definition-skipped', UNBOX, "            case None:\n                contribute(region, None)", "            case None:\n                pass", 'C11.D1'),
+    Mutant('meet-respelled', UNBOX, "        if region in sizes and sizes[region] != k:\n            sizes[region] = None\n        else:\n            sizes[region] = k",
+           "        if region not in sizes:\n            sizes[region] = k\n        elif sizes[region] != k:\n            sizes[region] = None", 'C11.D1', 'the same meet', expect='silent'),
     Mutant('alias-of-a-rebound-variable-is-a-reference', STORAGE, "        case Assign(expr=Var() as src):\n            return (\n                d in storage.declare_at_assign\n                and not is_rebound(storage, def_use.find_def_from_use(src))\n            )",
            "        case Assign(expr=Var()):\n            return d in storage.declare_at_assign", 'C11.G2', 'seeded change C11b'),
     Mutant('projection-of-a-rebound-variable-is-a-reference', STORAGE, "                and d in storage.declare_at_assign\n                and not is_rebound(storage, def_use.find_def_from_use(root))",
